@@ -97,6 +97,75 @@ def _nested_result(dty):
     return out
 
 
+_PASS_THROUGH = re.compile(r"^(?:&mut |&)?std::iter::(?:Take|Skip|Peekable|Fuse|StepBy|Filter|Inspect|SkipWhile|TakeWhile|Chain|Rev|Cycle)<(.*)>$")
+
+
+def _item_type(F, ty, depth=6):
+    """the Item type of an iterator type, where it can be told from the facts: a crate iterator (return type of its `next`), a
+    std adaptor that keeps its inner iterator's items, std::io's Result-yielding iterators, or a spelled-out `Item = T`"""
+    ty = ty.strip()
+    while ty.startswith("&mut ") or ty.startswith("&"):
+        ty = ty[5:] if ty.startswith("&mut ") else ty[1:]
+    if depth == 0:
+        return None
+    m = re.search(r"Item = (.*)", ty)
+    if m and (ty.startswith("impl ") or "dyn " in ty):
+        inner, d = "", 0
+        for ch in m.group(1):
+            if ch in "<([":
+                d += 1
+            elif ch in ">)]":
+                if d == 0:
+                    break
+                d -= 1
+            elif ch in ",+" and d == 0:
+                break
+            inner += ch
+        return inner.strip()
+    if re.match(r"^std::io::(Lines|Bytes|Split)<", ty):
+        return "std::result::Result<_, std::io::Error>"
+    for b in F.bodies:
+        if b.promoted is None and b.path.endswith(" as std::iter::Iterator>::next") and b.path.startswith("<"):
+            st = b.path[1:-len(" as std::iter::Iterator>::next")]
+            if strip_generics(st) == strip_generics(ty):
+                rt = b.j["locals"][0]["ty"]
+                if rt.startswith("std::option::Option<"):
+                    return rt[len("std::option::Option<"):-1]
+    m = _PASS_THROUGH.match(ty)
+    if m:
+        first, d = "", 0
+        for ch in m.group(1):
+            if ch in "<([":
+                d += 1
+            elif ch in ">)]":
+                d -= 1
+            elif ch == "," and d == 0:
+                break
+            first += ch
+        return _item_type(F, first, depth - 1)
+    return None
+
+
+def _dropping_adaptor(F, t):
+    """`it.flatten()`, `it.filter_map(Result::ok)`, `it.map_while(Result::ok)`, `it.flat_map(..)` over an iterator of I/O-bearing
+    results: every Err item silently disappears from the sequence.  Returns the item type or None."""
+    path = t["f"].get("path") or ""
+    args = t["f"].get("args") or []
+    if not args:
+        return None
+    if path == "std::iter::Iterator::flatten":
+        pass
+    elif path in ("std::iter::Iterator::filter_map", "std::iter::Iterator::map_while", "std::iter::Iterator::flat_map"):
+        if not any(re.search(r"Result::<.*>::ok\}?$", a) for a in args[1:]):
+            return None
+    else:
+        return None
+    it = _item_type(F, args[0])
+    if it and it.startswith("std::result::Result<") and errdisc.is_io_bearing(errdisc.err_type(it) or ""):
+        return it
+    return None
+
+
 def run(ctx, rep):
     F = ctx.facts()
     cg = ctx.cg()
@@ -119,6 +188,12 @@ def run(ctx, rep):
                 fn = b.path if b.path.startswith("<") else strip_generics(b.path)
                 key = re.sub(r"\{closure#\d+\}", "{closure}", "%s|%s|results-hidden-in-success-value" % (fn, strip_generics(callee_name(t))))
                 seen.setdefault(key, []).append((loc_of(b, t), "the success value of this call holds further I/O results (%s): they can be dropped without being examined" % inner[:80]))
+        for bi, t in b.calls():
+            it = _dropping_adaptor(F, t)
+            if it is not None:
+                fn = b.path if b.path.startswith("<") else strip_generics(b.path)
+                key = re.sub(r"\{closure#\d+\}", "{closure}", "%s|%s|errors-dropped-by-adaptor" % (fn, strip_generics(callee_name(t))))
+                seen.setdefault(key, []).append((loc_of(b, t), "this adaptor runs over items of type %s and silently removes every Err from the sequence" % it[:80]))
         for key, loc, what in errdisc.analyse_body(F, b):
             fn = b.path if b.path.startswith("<") else strip_generics(b.path)
             key = fn + "|" + key.split("|", 1)[1]
@@ -211,3 +286,4 @@ def run(ctx, rep):
     compose(ctx, rep, "C10", "C13.upd", r"^C10\.(validate|rewind|copy|open)$")
     # guards behind audited panic sites of the encoder that a failed write can otherwise reach (finalize / Drop after an error)
     compose(ctx, rep, "C15", "C13.enc", r"^C15\.guard$", key_only=r"Encoder::encode converts|fills its frame only with a non-empty block|exact_div")
+    compose(ctx, rep, "C15", "C13.len", r"^C15\.len$", key_only=r"declared-length check sees the counter")
